@@ -37,6 +37,52 @@ Definition run_fmt (lenient : bool) (kind : Z) (v : val) (f : bytes) : val :=
       end
   end.
 
+(** the deprecated free functions of src/format/formatting.rs (ops sf.dfmt / sf.dfmti):
+     pub fn format(w, date, time, off, items):      DelayedFormat { date, time, off, items, locale }.fmt(w)
+     pub fn format_item(w, date, time, off, item):  DelayedFormat { .., items: [item].into_iter(), .. }.fmt(w)  *)
+Definition format_fn (a : fmt_args) (st : sfi) : fres := delayed_display a st.
+Definition format_item_fn (a : fmt_args) (it : Item) : fres := write_items a [it] [].
+(* the harness' loop for sf.dfmti: one format_item call per item of the strict iterator, the texts
+   concatenated, the first Err ends it *)
+Fixpoint per_item (fuel : nat) (a : fmt_args) (st : sfi) (acc : bytes) : fres :=
+  match fuel with
+  | O => OutOfFuel
+  | S f =>
+    let* '(o, st') := sf_next st in
+    match o with
+    | None => fok acc
+    | Some it => let+ s := format_item_fn a it in per_item f a st' (acc ++ s)
+    end
+  end.
+Definition per_item_display (a : fmt_args) (st : sfi) : fres :=
+  per_item (S (sf_bound (sf_remainder st) + List.length (sf_queue st))) a st [].
+(* the harness builds (date, time, off) of a DateTime<FixedOffset> from NaiveDateTime::checked_add_offset
+   (overflowing_naive_local is not public): a value whose wall clock is not representable is BADARGS there *)
+Definition wall_ok (kind : Z) (v : val) : bool :=
+  if kind =? 3 then
+    match DateTime.dec_dtz v with
+    | Some z => match DateTime.ndt_checked_add_offset (DateTime.dz_utc z) (DateTime.dz_off z) with
+                | Val (Some _) => true
+                | _ => false
+                end
+    | None => true
+    end
+  else true.
+Definition run_dfmt (per : bool) (kind : Z) (v : val) (f : bytes) : val :=
+  if wall_ok kind v then
+    match dec_value kind v with
+    | None => VBad
+    | Some ra =>
+        match (let* a := ra in
+               if per then per_item_display a (mk_sfi f [] false) else format_fn a (mk_sfi f [] false)) with
+        | Val (Some s) => VStr s
+        | Val None => VErr B"fmt"
+        | Panic => VPanic
+        | OutOfFuel => VFuel
+        end
+    end
+  else VBad.
+
 Definition run (op : bytes) (args : list val) : val :=
   if op_is op "sf.items" then
     match args with
@@ -52,6 +98,16 @@ Definition run (op : bytes) (args : list val) : val :=
   else if op_is op "sf.fmtl" then
     match args with
     | [VInt kind; v; VStr f] => if utf8_valid f then run_fmt true kind v f else VBad
+    | _ => VBad
+    end
+  else if op_is op "sf.dfmt" then
+    match args with
+    | [VInt kind; v; VStr f] => if utf8_valid f then run_dfmt false kind v f else VBad
+    | _ => VBad
+    end
+  else if op_is op "sf.dfmti" then
+    match args with
+    | [VInt kind; v; VStr f] => if utf8_valid f then run_dfmt true kind v f else VBad
     | _ => VBad
     end
   else VErr B"NOOP".
